@@ -46,6 +46,7 @@ func runC06(c *Ctx) {
 	c.Rule("C06.prune", "removeQuery: delete(children, k) only when the recursive removeQuery returned true; a node reports itself empty iff len(clients)==0 && len(children)==0 (evaluated at (0,0),(1,0),(0,1),(1,1))")
 	c.Rule("C06.paths-agree", "the index slices given to AddQuery and UpdateOnce are built only from path.ToStrings results (plus the subscription path's origin); the snapshot path comes from path.CompletePath")
 
+	matchDescent(c, "C06.descent")
 	isInvoke := func(ev *Ev) bool {
 		ci, ok := ev.In.(ssa.CallInstruction)
 		return ok && ci.Common().IsInvoke() && ci.Common().Method.Name() == "Update" && isNamed(ci.Common().Value.Type(), "match", "Client")
